@@ -643,8 +643,10 @@ class Subspace(IdealPoint):
         """
 
         if model == Model.POINCARE:
+            # the point of the subspace closest to the origin (for a
+            # geodesic, the midpoint of its ideal endpoints)
             klein_basis = self.ideal_basis_coords(model=Model.KLEIN)
-            klein_midpoint = klein_basis.sum(axis=-2) / klein_basis.shape[-2]
+            klein_midpoint = _flat_center(klein_basis, equidistant=False)
             poincare_midpoint = kleinian_to_poincare(klein_midpoint)
             poincare_extreme = utils.sphere_inversion(poincare_midpoint)
 
@@ -653,8 +655,10 @@ class Subspace(IdealPoint):
 
         elif model == Model.HALFSPACE:
             halfspace_basis = self.ideal_basis_coords(model=Model.HALFSPACE)
-            halfspace_midpoint = (halfspace_basis.sum(axis=-2) /
-                                  halfspace_basis.shape[-2])
+            # the point of the boundary equidistant from all ideal
+            # points of the subspace
+            halfspace_midpoint = _flat_center(halfspace_basis,
+                                              equidistant=True)
 
             #just use the first element of the basis
             center = halfspace_midpoint
@@ -2053,6 +2057,23 @@ def lightlike(vectors):
     dim = np.array(vectors).shape[-1]
     return (np.abs(utils.normsq(vectors, minkowski(dim))) < ERROR_THRESHOLD)
 
+
+def _flat_center(points, equidistant):
+    """Distinguished point of the affine span of an array of points of
+    shape (..., k, n): the point equidistant from all k points if
+    `equidistant`, otherwise the point closest to the origin.
+
+    """
+    p0 = points[..., :1, :]
+    t_pts = points[..., 1:, :] - p0
+    gram = t_pts @ t_pts.swapaxes(-1, -2)
+    if equidistant:
+        rhs = utils.normsq(t_pts)[..., np.newaxis] / 2
+    else:
+        rhs = -(t_pts @ p0.swapaxes(-1, -2))
+
+    coeffs = (utils.invert(gram) @ rhs).swapaxes(-1, -2)
+    return (p0 + coeffs @ t_pts)[..., 0, :]
 
 def kleinian_to_poincare(points):
     euc_norms = np.atleast_1d(utils.normsq(points))
